@@ -12,8 +12,9 @@ import re
 
 from vcheck import Machinery, pmap
 
-RECORDS = [('x', 1, 0), ('longer text', 22, 1), ('', 333, 10), ('mid', 4, 1), ('z', 5, 7), ('zz', 66, 0)]
-FIELDS = ['a', 'b', 'e']
+RECORDS = [('x', 1, 0, 'p'), ('longer text', 22, 1, 'qq'), ('', 333, 10, 'a longer one'), ('mid', 4, 1, ''), ('z', 5, 7, 'rrr'),
+           ('zz', 66, 0, 's')]
+FIELDS = ['a', 'b', 'e', 'c(x)']
 
 
 def _cfg(maxcols, maxact, small, emit):
@@ -47,7 +48,7 @@ def _render(t):
     return t.ch_text(no_color=True).plain_text()
 
 
-_COL = re.compile(r'^([a-z]+)(?:/([a-z]+))?(!)?:(\d+)(?:-(\d+)(\(\d+\))?)?$')
+_COL = re.compile(r'^([a-z]+(?:\([a-z]+\))?)(?:/([a-z]+))?(!)?:(\d+)(?:-(\d+)(\(\d+\))?)?$')
 
 
 def parse_shape(s):
@@ -155,7 +156,7 @@ def replay_history(job):
 
 
 def run(ctx):
-    ctx.assumptions += ['fields a (str), b (int), e (enum); 6 fixed records, tables of 2, 4 and 6 of them; the constructor is '
+    ctx.assumptions += ['fields a (str), b (int), e (enum), c(x) (str, a name with parentheses); 6 fixed records, tables of 2, 4 and 6 of them; the constructor is '
                         'given the same fields / fields_types as the original table',
                         'rendering a deep copy is used to observe a table without printing the table itself']
     ctx.tlc('ppobj/PPTableFmt.tla', _cfg(1, 2, True, False), workers=16, timeout=3000)
